@@ -168,7 +168,10 @@ def main(argv=None):
         # one forked process per job (at most --jobs at a time): a job that dies (out of memory,
         # signal) or does not come back by the deadline is reported as a checker error (exit 3),
         # never as "held", and cannot take the other jobs or the check itself down with it.
-        deadline = time.time() + float(os.environ.get("VERIF_DEADLINE_S", "3000" if tier == "quick" else "21600"))
+        # fix the time scale before forking so that every job uses the same one
+        scale = engine.time_scale()
+        os.environ["VERIF_TIME_SCALE"] = "%.3f" % scale
+        deadline = time.time() + float(os.environ.get("VERIF_DEADLINE_S", "3000" if tier == "quick" else "21600")) * scale
         results = _run_jobs(ctx, jobs, min(a.jobs, len(jobs)), deadline)
 
     # ------------------------------------------------------------------ aggregate
